@@ -525,7 +525,7 @@ static int bufr_load_tableD( BUFR_Tables *tbls, BufrTablesSet *tbl, const char *
          {
          char buf[1024];
 
-         sprintf( buf, _("Info:  Loaded Table D: %s\n"), filename );
+         snprintf( buf, sizeof(buf), _("Info:  Loaded Table D: %s\n"), filename );
          bufr_print_debug( buf );
          }
       }
@@ -540,7 +540,7 @@ static int bufr_load_tableD( BUFR_Tables *tbls, BufrTablesSet *tbl, const char *
             {
             char buf[1024];
 
-            sprintf( buf, _("Info:  Merged Table D: %s\n"), filename );
+            snprintf( buf, sizeof(buf), _("Info:  Merged Table D: %s\n"), filename );
             bufr_print_debug( buf );
             }
          }
